@@ -221,10 +221,25 @@ class SimRunner:
         if spec.get("pre"):
             await asyncio.sleep(spec["pre"])
         wires = []
-        for gap, service in spec["wire"]:
+        nested = spec.get("nested")
+        for k, (gap, service) in enumerate(spec["wire"]):
             if gap:
                 await asyncio.sleep(gap)
-            wires.append(await es.wire(service, {"task": task, "client": client, "ordinal": ordinal}))
+            if not nested:
+                wires.append(await es.wire(service, {"task": task, "client": client, "ordinal": ordinal}))
+                continue
+            # as runner.Composite does for its sub-requests: every wire request runs in a nested request context of its own; a failing
+            # outcome is raised by the last sub-request, i.e. its nested context is left by an exception
+            with es.new_request_context():
+                wires.append(await es.wire(service, {"task": task, "client": client, "ordinal": ordinal}))
+                failure = _exception_for(spec.get("outcome", "ok")) if k == len(spec["wire"]) - 1 else None
+                if failure is not None:
+                    entry["wire"] = [(x["pc_start"], x["pc_end"]) for x in wires]
+                    entry["t_wire_start"] = min(x["t_start"] for x in wires)
+                    entry["t_wire_end"] = max(x["t_end"] for x in wires)
+                    entry["t_exit"] = w.clock.now
+                    entry["pc_exit"] = w.clock.perf_counter()
+                    raise failure
         entry["wire"] = [(x["pc_start"], x["pc_end"]) for x in wires]
         entry["t_wire_start"] = min(x["t_start"] for x in wires)
         entry["t_wire_end"] = max(x["t_end"] for x in wires)
@@ -270,21 +285,28 @@ class SimRunner:
             return d
         if outcome == "fail-dict":
             return {"weight": weight, "unit": unit, "success": False, "error-type": "sim"}
-        if outcome == "api-4xx":
-            raise _api_error(400)
-        if outcome == "api-5xx":
-            raise _api_error(503)
-        if outcome == "timeout":
-            raise elasticsearch.ConnectionTimeout("sim timeout")
-        if outcome == "conn-error":
-            raise elasticsearch.ConnectionError("sim connection refused")
-        if outcome == "raise-key":
-            raise KeyError("sim-missing-param")
-        if outcome == "raise-runtime":
-            raise RuntimeError("sim runner failure")
-        if outcome == "raise-assert":
-            raise exceptions.RallyAssertionError("sim assertion failed")
+        failure = _exception_for(outcome)
+        if failure is not None:
+            raise failure
         raise AssertionError(f"unknown outcome {outcome}")
+
+
+def _exception_for(outcome):
+    if outcome == "api-4xx":
+        return _api_error(400)
+    if outcome == "api-5xx":
+        return _api_error(503)
+    if outcome == "timeout":
+        return elasticsearch.ConnectionTimeout("sim timeout")
+    if outcome == "conn-error":
+        return elasticsearch.ConnectionError("sim connection refused")
+    if outcome == "raise-key":
+        return KeyError("sim-missing-param")
+    if outcome == "raise-runtime":
+        return RuntimeError("sim runner failure")
+    if outcome == "raise-assert":
+        return exceptions.RallyAssertionError("sim assertion failed")
+    return None
 
 
 _registered = False
